@@ -458,6 +458,13 @@ Section HistoryProofs.
     apply mapM_ok in M. eapply Forall2_Forall_r; [exact M|]. intros v X Hv. eapply store_fits. exact Hv.
   Qed.
 
+  Lemma grow_fit : forall cols m, cols_fit cols -> cols_fit (grow cols m).
+  Proof.
+    intros cols m H. unfold cols_fit, grow in *. induction H as [|c r Hc Hr IH]; cbn [map]; constructor; auto.
+    apply Forall_app. split; [exact Hc|]. apply Forall_forall. intros x Hx. apply repeat_spec in Hx. subst x.
+    unfold fitsP. lia.
+  Qed.
+
   Lemma step_wf : forall s o, wf s -> wf (fst (step s o)).
   Proof.
     intros s o W. destruct o as [a|a|ax v|ax v|ax vals|ax vals|ns no| |ws wo]; cbn [Scaling.step].
@@ -467,7 +474,7 @@ Section HistoryProofs.
       constructor; cbn; auto.
     - destruct W as [H1 H2 H3 H4 H5]. cbn. constructor; cbn; rewrite ?set_at_length; auto.
     - destruct W as [H1 H2 H3 H4 H5]. cbn. constructor; cbn; rewrite ?set_at_length; auto.
-    - apply assign_rec_wf. destruct W as [H1 H2 H3 H4 H5]. constructor; cbn; auto.
+    - apply assign_rec_wf. destruct W as [H1 H2 H3 H4 H5]. constructor; cbn [heap h_s h_o r_s r_o ints]; auto. apply grow_fit. exact H5.
     - apply assign_rec_wf. exact W.
     - assert (A1 : exists s1 sid, (match ns with Some a => alloc s a | None => (s, r_s s) end) = (s1, sid)
                    /\ wf s1 /\ (sid < length (heap s1))%nat).
@@ -598,8 +605,11 @@ Section HistoryProofs.
     let r := step s (Assign a vals) in
     heap (fst r) = heap s /\ h_s (fst r) = h_s s /\ h_o (fst r) = h_o s
     /\ r_s (fst r) = h_s s /\ r_o (fst r) = h_o s      (* the record now uses the header's arrays, even when the assignment fails *)
-    /\ assigned (ints s) (get (heap s) (h_s s)) (get (heap s) (h_o s)) a vals (ints (fst r)) (snd r).
-  Proof. intros s a vals. cbn [Scaling.step]. apply (assign_rec_spec (mkst (heap s) (h_s s) (h_o s) (h_s s) (h_o s) (ints s))). Qed.
+    /\ assigned (grow (ints s) (length vals)) (get (heap s) (h_s s)) (get (heap s) (h_o s)) a vals (ints (fst r)) (snd r).
+  Proof.
+    intros s a vals. cbn [Scaling.step].
+    apply (assign_rec_spec (mkst (heap s) (h_s s) (h_o s) (h_s s) (h_o s) (grow (ints s) (length vals)))).
+  Qed.
 
   Lemma step_rec_assign_spec : forall s a vals,
     let r := step s (RecAssign a vals) in
@@ -877,7 +887,7 @@ Section AxesAssign.
   Lemma step_assign_axis : forall s a vals, (a < 3)%nat ->
     let r := step T present store restore teqb d s (Assign a vals) in
     heap (fst r) = heap s /\ h_s (fst r) = h_s s /\ h_o (fst r) = h_o s /\ r_s (fst r) = h_s s /\ r_o (fst r) = h_o s
-    /\ assign_outcome (ints s) (at3 T d (get T (heap s) (h_s s)) a) (at3 T d (get T (heap s) (h_o s)) a) a vals (ints (fst r)) (snd r).
+    /\ assign_outcome (grow (ints s) (length vals)) (at3 T d (get T (heap s) (h_s s)) a) (at3 T d (get T (heap s) (h_o s)) a) a vals (ints (fst r)) (snd r).
   Proof.
     intros s a vals Ha r. destruct (step_assign_spec T present store restore teqb d store_err s a vals) as (A & B & C & D & E & F).
     repeat split; auto. apply assigned_axis; assumption.
@@ -933,21 +943,22 @@ Lemma q_assign_after : forall ops s0 a vals, wf s0 -> (a < 3)%nat ->
   let s := fst (q_run s0 ops) in
   let sc := at3 Q 0%Q (get Q (heap s) (h_s s)) a in let off := at3 Q 0%Q (get Q (heap s) (h_o s)) a in
   let r := q_step s (Assign a vals) in
+  let cols := grow (ints s) (length vals) in    (* zero points are appended first when vals is longer than the record *)
   heap (fst r) = heap s /\ h_s (fst r) = h_s s /\ h_o (fst r) = h_o s /\ r_s (fst r) = h_s s /\ r_o (fst r) = h_o s /\
   match snd r with
-  | ONone => vals = [] /\ ints (fst r) = ints s
+  | ONone => vals = [] /\ ints (fst r) = cols
              \/ exists xs, Forall2 (q_assigned_int sc off) vals xs
-                           /\ length xs = length (nth a (ints s) []) /\ ints (fst r) = set_at (ints s) a xs
-  | OErr e => ints (fst r) = ints s /\
+                           /\ length xs = length (nth a cols []) /\ ints (fst r) = set_at cols a xs
+  | OErr e => ints (fst r) = cols /\
               (e = EOverflow /\ (exists v, In v vals /\ ~ fitsP (q_store v sc off))
-               \/ e = EValue /\ length vals <> length (nth a (ints s) []))
+               \/ e = EValue /\ length vals <> length (nth a cols []))
   | OFile _ => False
   end.
 Proof.
-  intros ops s0 a vals W Ha s sc off r.
+  intros ops s0 a vals W Ha s sc off r cols.
   pose proof (step_assign_axis Q q_present q_store_checked q_restore_checked Qeq_bool 0%Q q_store_err s a vals Ha) as H.
   cbv zeta in H. change (step Q q_present q_store_checked q_restore_checked Qeq_bool 0%Q s (Assign a vals)) with r in H.
-  fold sc off in H. destruct r as [s' x]. cbn [fst snd] in *. destruct H as (A & B & C & D & E & F). repeat split; auto.
+  fold sc off cols in H. destruct r as [s' x]. cbn [fst snd] in *. destruct H as (A & B & C & D & E & F). repeat split; auto.
   unfold assign_outcome in F. destruct x as [|e|f]; [| |exact F].
   - destruct F as [F|(xs & F1 & F2 & F3)]; [left; exact F|right]. exists xs. repeat split; auto.
     eapply Forall2_impl; [|exact F1]. intros v X HX. apply q_checked_ok in HX. destruct HX as [-> HX].
@@ -960,21 +971,22 @@ Lemma f_assign_after : forall ops s0 a vals, wf s0 -> (a < 3)%nat ->
   let s := fst (f_run s0 ops) in
   let sc := at3 fl None (get fl (heap s) (h_s s)) a in let off := at3 fl None (get fl (heap s) (h_o s)) a in
   let r := f_step s (Assign a vals) in
+  let cols := grow (ints s) (length vals) in
   heap (fst r) = heap s /\ h_s (fst r) = h_s s /\ h_o (fst r) = h_o s /\ r_s (fst r) = h_s s /\ r_o (fst r) = h_o s /\
   match snd r with
-  | ONone => vals = [] /\ ints (fst r) = ints s
+  | ONone => vals = [] /\ ints (fst r) = cols
              \/ exists xs, Forall2 (fun v X => f_store v sc off = Some X /\ fitsP X) vals xs
-                           /\ length xs = length (nth a (ints s) []) /\ ints (fst r) = set_at (ints s) a xs
-  | OErr e => ints (fst r) = ints s /\
+                           /\ length xs = length (nth a cols []) /\ ints (fst r) = set_at cols a xs
+  | OErr e => ints (fst r) = cols /\
               (e = EOverflow /\ (exists v, In v vals /\ f_store_checked v sc off = Err EOverflow)
-               \/ e = EValue /\ length vals <> length (nth a (ints s) []))
+               \/ e = EValue /\ length vals <> length (nth a cols []))
   | OFile _ => False
   end.
 Proof.
-  intros ops s0 a vals W Ha s sc off r.
+  intros ops s0 a vals W Ha s sc off r cols.
   pose proof (step_assign_axis fl f_present f_store_checked f_restore_checked fl_eqb None f_store_err s a vals Ha) as H.
   cbv zeta in H. change (step fl f_present f_store_checked f_restore_checked fl_eqb None s (Assign a vals)) with r in H.
-  fold sc off in H. destruct r as [s' x]. cbn [fst snd] in *. destruct H as (A & B & C & D & E & F). repeat split; auto.
+  fold sc off cols in H. destruct r as [s' x]. cbn [fst snd] in *. destruct H as (A & B & C & D & E & F). repeat split; auto.
   unfold assign_outcome in F. destruct x as [|e|f]; [| |exact F].
   - destruct F as [F|(xs & F1 & F2 & F3)]; [left; exact F|right]. exists xs. repeat split; auto.
     eapply Forall2_impl; [|exact F1]. intros v X HX. apply f_checked_ok in HX. exact HX.
